@@ -138,3 +138,39 @@ reg("C02", level="other", engine="E-TAB+E-SET", design_ref="DESIGN.md §5 C02",
                "follows from C03 + C07 provenance, text-level concatenation from the grammar rules of C01.",
     level_note="Trusted: rustc MIR, interpreter/models (Iterator::flatten/fold/try_fold/collect), level-1 tables (C07).",
     exhaustive=True, assumptions=["C07", "C03", "list lengths <= 3 (quick) / 4 (thorough)"])
+
+reg("C17", level="other", engine="E-TAB+E-FLOW", design_ref="DESIGN.md §5 C17",
+    technique="abstract interpretation of the parse entry points with the grammar call stubbed (token provenance of the "
+              "error's input string and span offset, enumerated parser outcomes), guard tables of number() and range_set, "
+              "wiring of the error accessors and Diagnostic impl",
+    explanation="Partial claim. Decided: E1 — SemverError.input is the caller's string on every error path (the stub replaces "
+                "the stream local, so a use of the advanced slice shows as a different token); E2 — the span offset is 0, "
+                "len, or (error position - start of the caller's string); E3 — MaxLengthError exactly under "
+                "len > MAX_LENGTH before any parsing, inner kind / Context / Other selection, number() raising "
+                "MaxIntError(v) / ParseIntError at the position saved before the digits, NoValidRanges exactly for an "
+                "empty alternative list, kind surviving append/add_context/from_external_error; E5 — accessors and "
+                "Diagnostic wiring. NOT decided: the line/column arithmetic of location(), rendering by miette.",
+    level_text="Other (partial): exhaustive over the enumerated parser outcomes and length classes; location()'s arithmetic "
+               "and miette's renderer are outside.",
+    level_note="Trusted: rustc MIR, interpreter/models, winnow delivering error positions inside the stream it was given, "
+               "and raising ErrMode::Incomplete only for Partial streams.",
+    exhaustive=True, assumptions=["winnow error positions are suffixes of the input stream",
+                                  "ErrMode::Incomplete only arises for winnow::stream::Partial"])
+
+reg("C06", level="other", engine="E-FLOW+E-TAB+E-GRAM", design_ref="DESIGN.md §5 C06",
+    technique="panic-site inventory over MIR (Assert terminators, calls of panicking std functions) with one named discharge "
+              "rule per site, the rules backed by decision tables, provenance tables and CFG/call-graph analyses",
+    explanation="Partial claim. Every panic-capable construct in a crate body (overflow assertions, unwrap/expect, "
+                "panic_fmt of unreachable!/debug_assert!, str/slice indexing) is enumerated from MIR and must be discharged: "
+                "D-INV (unreachable! arms dead under the (Lower, Upper) shape, no abstract case reaches them), D-NEW, D-DIFF "
+                "(no row of the difference table unwraps None), D-NUM (every `+ 1` is applied to a parsed component), D-PTR / "
+                "D-PARTIAL / D-LEN (entry-point arithmetic), D-LOC (location(), conditional on offset provenance), D-PRE "
+                "(debug_assert on negative tuple components: precondition). Repetition combinators make progress; the call "
+                "graph is acyclic and every loop is driven by a collection iterator. NOT decided: the running-time clause; "
+                "panics inside winnow, miette or std.",
+    level_text="Other (partial): the inventory is complete for the crate's own MIR; a new panic-capable construct is a "
+               "violation until a rule discharges it.",
+    level_note="Trusted: rustc MIR, interpreter/models, winnow raising ErrMode::Incomplete only for Partial streams, "
+               "frozen reasons for the sites of location(). Dependencies' internals are out of scope.",
+    exhaustive=True, assumptions=["INV-NUM: components stored in a Range are <= MAX_SAFE_INTEGER + 1",
+                                  "panics inside dependencies are not analysed", "running time is not analysed"])
